@@ -19,7 +19,8 @@ RULE = ("cases: nn op/layer/loss (functional and module forms) x full geometry d
         "no-window rejection, BCE at the clamp, and an enumerated output-size grid.  non-trivial: geometry not "
         "all-default / reduction != mean / eval with running statistics / rank != 2 / module form; distinct by "
         "hash of the whole case"
-        " Also: memory layouts, magnitudes, batch-norm data far from its spread (float64), rank-5 batch-norm input, long batches with narrow label dtypes, softmax/cross-entropy rows at far-apart levels, Neuron form.")
+        " Also: memory layouts, magnitudes, batch-norm data far from its spread (float64), rank-5 batch-norm input, long batches with narrow label dtypes, softmax/cross-entropy rows at far-apart levels, Neuron form."
+        " Round 4: pooling over -inf/+inf/lowest-finite values next to padding (exact), float16 data of magnitude 1e3-6e4 (window sum outside the float16 range, mean inside), modules used before on another rank.")
 ASSUMPTIONS = ["reference models transcribe the PyTorch documentation formulas (cross-correlation, -inf padded "
                "max-pool, zero-padded average counted in the divisor, channel-major unfold rows, scatter-add fold, "
                "biased batch variance / running statistics)",
